@@ -4,6 +4,7 @@ use crate::rcgen::{self, SITES_RC};
 use crate::rcworld;
 use crate::runner::{CheckDef, Family, Tier};
 use crate::templates;
+use crate::{pure, seq};
 
 const ASSUME_SC: &str = "only sequentially consistent interleavings at the granularity of one atomic access per step are explored";
 const ASSUME_HOOKS: &str = "circ is built with --cfg circ_verif (yield points, events, read-only shims) and without debug assertions";
@@ -159,13 +160,74 @@ pub fn all() -> Vec<CheckDef> {
         },
         CheckDef {
             id: "C10",
-            families: vec![Family {
-                name: "seq-bulk",
-                strategy: |_| rcgen::seq_case(rcgen::W_BULK, 40),
-                cases: |t| t.pick(20_000, 200_000),
-            }],
-            exec: rcworld::exec,
-            rule: "sequential programs over new_many / new_many_iter / weak_many with generated release orders; non-trivial = at least one bulk-constructed object; distinct = distinct hash of the case",
+            families: vec![
+                Family {
+                    name: "bulk-dedicated",
+                    strategy: |_| seq::bulk_strategy(),
+                    cases: |t| t.pick(40_000, 400_000),
+                },
+                Family {
+                    name: "seq-bulk",
+                    strategy: |_| rcgen::seq_case(rcgen::W_BULK, 40),
+                    cases: |t| t.pick(20_000, 200_000),
+                },
+            ],
+            exec: seq::exec_c10,
+            rule: "(1) one bulk constructor per case: new_many::<N> (N in 0,1,2,3,4,7,16), new_many_iter(count 0..40) with every consumed prefix then drop or abort, weak_many::<N> on fresh/shared/already-weaked/null receivers, owners released in a generated order with collection rounds in between; counts, pointer identity, liveness while owned, destruct+free exactly once after the last owner; (2) sequential programs mixing bulk constructors with other ops under the shadow model. Non-trivial = N (count) >= 2 or == 0 for (1), at least one bulk-constructed object for (2); distinct = distinct hash of the case",
+            timeout_s: t60,
+            assumptions: vec![ASSUME_HOOKS],
+            shards: s16,
+        },
+        CheckDef {
+            id: "C06",
+            families: vec![Family { name: "structures", strategy: seq::c06_strategy, cases: |t| t.pick(12_000, 24_000) }],
+            exec: seq::exec_c06,
+            rule: "chains, binary trees and combs of n nodes (log-uniform up to 20 000 quick / 1 000 000 thorough), links stamped within a band of <=3 epochs or unstamped, head dropped when the band is 3..40 epochs old, flush delayed by 0..20 foreign epoch advances, epoch alignment 0..47, optional externally held node; oracle: all unreachable nodes destructed within 40 + 16*ceil(n/1024) epoch advances after the flush, held sub-structure intact. Non-trivial = n >= 64; distinct = distinct hash of the case",
+            timeout_s: |t| t.pick(120, 600),
+            assumptions: vec![ASSUME_HOOKS, "the bound's constants (40, 16 per 1024 nodes) are deliberately loose: with 4-bit stamps up to 12 of every 16 epochs can look 'too recent' for the stamp residues this generator produces, see DESIGN.md 6/C06; the property is the shape of the bound"],
+            shards: s16,
+        },
+        CheckDef {
+            id: "C07",
+            families: vec![Family { name: "deep-structures", strategy: seq::c07_strategy, cases: |t| t.pick(400, 800) }],
+            exec: seq::exec_c07,
+            rule: "chains / trees / combs / chains whose nodes leave their edges to Drop, n log-uniform up to 300 000 (thorough 4 000 000), reclaimed on the main thread or on a spawned thread with 2 MiB / 1 MiB / 512 KiB stack; oracle: the process survives and every node is destructed. Non-trivial = n >= 2048 (the recursion cap is reached at least twice); distinct = distinct hash of the case",
+            timeout_s: |t| t.pick(300, 900),
+            assumptions: vec![ASSUME_HOOKS, "stack sizes down to a quarter of Rust's default (512 KiB) in an optimised build; any bounded recursion needs some stack"],
+            shards: |t| t.pick(16, 8),
+        },
+        CheckDef {
+            id: "C11",
+            families: vec![
+                Family { name: "tagged-words", strategy: |_| pure::tag_strategy(), cases: |t| t.pick(30_000, 300_000) },
+                Family { name: "tagged-exhaustive-subspace", strategy: |_| pure::tag_exhaustive_strategy(), cases: |_| 64 },
+                Family { name: "api-on-real-objects", strategy: |_| pure::api_tag_strategy(), cases: |t| t.pick(20_000, 200_000) },
+            ],
+            exec: pure::exec_c11,
+            rule: "(a) the library's Tagged<T> operations on plain words at alignments 1,2,4,8,16,64,4096: boundary and random aligned addresses below 2^60, tags over the whole usize range, timestamps 0..15 and wider, plus the sub-space 16 timestamps x tags < 2*align x 4 boundary addresses enumerated completely; (b) with_tag/tag/ptr_eq/is_null/formatting/dereference through Rc, Snapshot, Weak, WeakSnapshot on real objects of payload alignment 8/16/64, the same pointer written at two different epochs. Non-trivial = a tag with bits above the alignment mask or a non-zero timestamp; distinct = distinct hash of the case",
+            timeout_s: t60,
+            assumptions: vec![ASSUME_HOOKS],
+            shards: s16,
+        },
+        CheckDef {
+            id: "C12",
+            families: vec![
+                Family { name: "state-fields", strategy: |_| pure::state_strategy(), cases: |t| t.pick(20_000, 200_000) },
+                Family { name: "modular", strategy: |_| pure::mod_strategy(), cases: |t| t.pick(20_000, 200_000) },
+                Family { name: "modular-exhaustive-0..255", strategy: |_| pure::mod_exhaustive_strategy(), cases: |_| 64 },
+                Family { name: "decision-end-to-end", strategy: |_| seq::age_strategy(), cases: |t| t.pick(20_000, 200_000) },
+            ],
+            exec: pure::exec_c12,
+            rule: "(a) count words built from random and boundary field values, every updater and the word arithmetic the library performs must change its own field only; (b) the library's modular le/max for current epochs 0..10 000 (dense around multiples of 16) and true ages -1..64: old-enough implies age >= 3, ages 3..13 are old enough, the merge returns its newest input, plus epochs 0..255 x ages -1..64 enumerated completely; (c) end to end: parent->child structures whose child is evaluated by the real cascade when its newest stamp has a generated true age, the DISPOSE/REDEFER event says what the code decided. Non-trivial = epoch >= 16 or age >= 14 (wrap involved) or a field at 0/max; distinct = distinct hash of the case",
+            timeout_s: t60,
+            assumptions: vec![ASSUME_HOOKS, "in-range values = within the field widths reported by the library (29/29/4 bits + 2 flags)"],
+            shards: s16,
+        },
+        CheckDef {
+            id: "C19",
+            families: vec![Family { name: "pointer-pools", strategy: |_| pure::ord_strategy(), cases: |t| t.pick(30_000, 300_000) }],
+            exec: pure::exec_c19,
+            rule: "pools of 2..6 Rc (and their Snapshots) drawn from null, tagged null, the same object under different tags and write epochs, distinct objects with equal or different contents; ==, cmp, partial_cmp, hash compared with Option<&T> of the referent, ptr_eq with identity+tag, and the Eq/Ord laws over all pairs and triples. Non-trivial = the pool contains two distinct objects with equal contents, the same object under different tags/epoch bits, or null next to non-null; distinct = distinct hash of the case",
             timeout_s: t60,
             assumptions: vec![ASSUME_HOOKS],
             shards: s16,
